@@ -8,7 +8,8 @@ sealed, or garbage) — the abstract laws hold for it (Proofs/C20 `toy_laws`).
 ring     `~`  (no payload codec)  |  `<default>/<entries>`
            default = `~` | `<o>+<r>`            (originator box key token / responder box key token, `-` = no box)
            entries = `-` | `;`-separated `<prefix>=<o>+<r>` (set_key) or `<prefix>=~` (set_key(prefix, None))
-tamper   `none` | `garble` (payload replaced by something never sealed) | `swap:<uri>` (payload delivered under this
+tamper   `none` | `garble` (payload replaced by something never sealed) | `algo` (enc_algo := another valid identifier) |
+         `ser` (enc_serializer := another valid identifier) | `swap:<uri>` (payload delivered under this
            envelope URI instead)
 
 `cb.box <ring> <o|r> <uri> <exact 0|1>`                          → key token or `-`
@@ -50,11 +51,13 @@ def parseRing (s : String) : Option (Codec String) :=
     | _ => none
 
 inductive Tamper
-  | none | garble | swap (u : Uri)
+  | none | garble | swap (u : Uri) | algo | ser
 
 def parseTamper (s : String) : Option Tamper :=
   if s = "none" then some .none
   else if s = "garble" then some .garble
+  else if s = "algo" then some .algo
+  else if s = "ser" then some .ser
   else match s.splitOn ":" with
     | ["swap", u] => some (.swap u.toList)
     | _ => Option.none
@@ -79,6 +82,8 @@ def applyTamper (t : Tamper) (env : Uri) (m : M) : Uri × M :=
   | .none => (env, m)
   | .garble => (env, if m.payload.isSome then { m with payload := some (.garbage 0) } else m)
   | .swap u => (u, m)
+  | .algo => (env, if m.payload.isSome then { m with encAlgo := some .other } else m)
+  | .ser => (env, if m.payload.isSome then { m with encSerializer := some .other } else m)
 
 def evStr : EventOut String String → String
   | .invoked a k e => s!"invoked:{o2s a}:{o2s k}:{boolStr e}"
@@ -135,6 +140,8 @@ def flow (dir : String) (rA rB : Codec String) (u : Uri) (bad : String) (t : Tam
         let y' : M := match t with
           | .none => y
           | .garble => if y.payload.isSome then { y with payload := some (.garbage 0) } else y
+          | .algo => if y.payload.isSome then { y with encAlgo := some .other } else y
+          | .ser => if y.payload.isSome then { y with encSerializer := some .other } else y
           | .swap _ =>
             match originate tbox tcodec rA u (some "a") kw 0 with
             | .raised => y
